@@ -29,6 +29,8 @@ from t_lineindex import P as BaseP, tokenize, ASSIGN_OPS
 FOLDING = "crates/ide/src/handlers/folding_range.rs"
 UTILS = "crates/ide/src/utils.rs"
 HOVER = "crates/ide/src/handlers/hover.rs"
+DOCSYM = "crates/ide/src/handlers/document_symbol.rs"
+INLAY = "crates/ide/src/handlers/inlay_hint.rs"
 
 # ----------------------------------------------------------------------------- parser extension
 
@@ -272,7 +274,14 @@ def top_fn_names(repo, rel):
 # ----------------------------------------------------------------------------- types
 
 CURSORISH = ("node", "token", "element")
-RUST_TYPES = {"SyntaxNode": "node", "SyntaxToken": "token", "SyntaxElement": "element", "TextRange": "range",
+ENTRY_TYPES = ("record", "targ", "field", "variable", "defset", "multiclass", "defm")
+SV_CTORS = [("Record", "record"), ("TemplateArgument", "targ"), ("RecordField", "field"), ("Variable", "variable"),
+            ("Defset", "defset"), ("Multiclass", "multiclass"), ("Defm", "defm")]
+SM_EFFECT_METHODS = ("template_arg", "record_field", "record", "symbol", "iter_symbols_in_range")
+IGNORED_MACROS = ("tracing",)
+RUST_TYPES = {"SymbolMap": "symmap", "Symbol": "symview", "dynIndexDatabase": "idb", "DocumentSymbol": "docsym",
+              "FileRange": "filerange", "Record": "record", "RecordField": "field", "InlayHint": "hint",
+              "SyntaxNode": "node", "SyntaxToken": "token", "SyntaxElement": "element", "TextRange": "range",
               "TextSize": "size", "String": "str", "str": "str", "FileId": "fileid", "dynSourceDatabase": "db",
               "FoldingRange": "range", "bool": "bool", "usize": "usize", "SyntaxKind": "kind"}
 
@@ -301,7 +310,18 @@ def coq_type(t):
             return "list (%s)" % coq_type(t[1])
         if t[0] == "tuple":
             return "(" + " * ".join(coq_type(x) for x in t[1]) + ")%type"
-    return {"kind": "SyntaxKind", "range": "trange", "size": "N", "usize": "nat", "bool": "bool", "str": "text",
+        if t[0] == "ast":
+            return "cursor"
+    if t in ENTRY_TYPES:
+        return "entry"
+    if isinstance(t, tuple) and t[0] == "ast":
+        return "cursor"
+    if t in ("symid", "recordid", "targid", "fieldid"):
+        return {"symid": "symbol_id"}.get(t, "N")
+    return {"symmap": "symbol_map", "symview": "symview", "idb": "index_db", "index": "index_db", "docsym": "docsym",
+            "filerange": "file_range", "rkind": "option record_kind", "dskind": "ds_kind", "tytype": "name",
+            "hint": "hint", "hkind": "hint_kind",
+            "kind": "SyntaxKind", "range": "trange", "size": "N", "usize": "nat", "bool": "bool", "str": "text",
             "char": "N", "unit": "unit", "tree": "tree", "db": "parse_db", "fileid": "N"}[t]
 
 
@@ -359,6 +379,9 @@ def tuple_projs(n, st):
     return list(reversed(outs))
 
 
+# the recursion depth a self-recursive fn is given by its callers (validated by the equality proof)
+REC_FUEL = {"symbol_to_document_symbol": "2%nat"}
+
 # the fuel of each rendered loop: (fn, ordinal of the loop in the fn, in source order) -> measure over the first state
 # variable of cursor type.  Validated by the equality proof (the hand models never run out of fuel: DocProofs.v).
 MEASURES = {
@@ -407,7 +430,16 @@ class Gen:
         if isinstance(x, tuple):
             if x and x[0] in ("try", "return", "break", "loop", "whilelet", "while", "for"):
                 return True
+            if x and x[0] == "closure":
+                return False          # a closure is a value; its own effects are handled where it is applied
+            if x and x[0] == "mcall" and x[2] in ("map", "filter", "filter_map") and len(x[3]) == 1 \
+                    and x[3][0][0] == "closure" and self.has_effect(x[3][0][2]):
+                return True
             if x and x[0] == "mcall" and x[2] == "covering_element":
+                return True
+            if x and x[0] == "mcall" and x[2] in SM_EFFECT_METHODS and len(x[3]) == 1:
+                return True
+            if x and x[0] == "call" and x[1][0] == "path" and x[1][1][-1] == getattr(self, "cur_fn", None):
                 return True
             if x and x[0] == "call" and x[1][0] == "path" and x[1][1][-1] in self.fns and self.fns[x[1][1][-1]]["effect"]:
                 return True
@@ -535,6 +567,12 @@ class Gen:
                 return "None", ("opt", expect[1] if isinstance(expect, tuple) and expect[0] == "opt" else None)
             if len(p) == 2 and p[0] == "SyntaxKind":
                 return "S_" + p[1], "kind"
+            if len(p) == 2 and p[0] == "RecordKind" and p[1] in ("Class", "Def"):
+                return "(Some RK%s)" % p[1], "rkind"
+            if len(p) == 2 and p[0] == "DocumentSymbolKind":
+                return "DK" + p[1], "dskind"
+            if len(p) == 2 and p[0] == "InlayHintKind":
+                return "HK" + p[1], "hkind"
             self.fail(e[2], "unknown name %s" % "::".join(p))
         if k == "num":
             if expect == "usize":
@@ -569,12 +607,60 @@ class Gen:
                 if ty != "range":
                     self.fail(e[3], "FoldingRange { range } of a non-range")
                 return "mk_folding_range %s" % atom(t), "range"
+            if e[1] == ["DocumentSymbol"] and [f for f, _ in e[2]] == ["name", "typ", "range", "kind", "children"]:
+                want = ["str", "str", "range", "dskind", ("list", "docsym")]
+                ts = []
+                for (f, x), w in zip(e[2], want):
+                    t, ty = self.tr(x, env, em, w)
+                    if not same(ty, w):
+                        self.fail(e[3], "DocumentSymbol.%s: %s, expected %s" % (f, ty, w))
+                    ts.append(atom(t))
+                return "mk_document_symbol " + " ".join(ts), "docsym"
             self.fail(e[3], "unsupported struct literal %s" % "::".join(e[1]))
         if k in ("match", "if", "iflet", "block"):
             return self.tr_control(e, env, em, expect)
+        if k == "field":
+            return self.tr_field(e, env, em)
         if k == "closure":
             self.fail(e[3], "closure outside a call argument")
         if k == "macro":
+            if e[1] == ["format"] and e[2] and e[2][0][0] == "str":
+                from rsutil import unescape_rust_str
+                lit = unescape_rust_str(e[2][0][1])
+                parts = re.split(r"(\{[A-Za-z_0-9]*\})", lit)
+                rest_args = list(e[2][1:])
+                pieces = []
+                for part in parts:
+                    if re.fullmatch(r"\{[A-Za-z_0-9]*\}", part):
+                        if part == "{}":
+                            if not rest_args:
+                                self.fail(e[3], "format!: too few arguments")
+                            x = rest_args.pop(0)
+                        else:
+                            x = ("path", [part[1:-1]], e[3])
+                        t, ty = self.tr(x, env, em)
+                        if ty not in ("str", "tytype"):
+                            self.fail(e[3], "format!: argument of type %s" % (ty,))
+                        pieces.append(atom(t))
+                    elif part:
+                        if "{" in part or "}" in part:
+                            self.fail(e[3], "format!: unsupported format spec in %r" % lit)
+                        pieces.append("[" + "; ".join(str(ord(c)) for c in part) + "]")
+                if rest_args:
+                    self.fail(e[3], "format!: too many arguments")
+                return (" ++ ".join(pieces) if pieces else "[]"), "str"
+            if e[1] == ["matches"] and len(e[2]) == 2 and e[2][1][0] == "call" and e[2][1][1][0] == "path" \
+                    and e[2][1][1][1][:2] == ["ast", "ArgValue"] and len(e[2][1][1][1]) == 3 \
+                    and e[2][1][2] == [("path", ["_"], e[2][1][2][0][2])] :
+                t, ty = self.tr(e[2][0], env, em)
+                if ty != ("ast", "ArgValue"):
+                    self.fail(e[3], "matches! on a %s" % (ty,))
+                return "sk_eqb (rw_kind %s) S_%s" % (atom(t), e[2][1][1][1][2]), "bool"
+            if e[1] == ["vec"] and not e[2]:
+                return "[]", ("list", expect[1] if isinstance(expect, tuple) and expect[0] == "list" else None)
+            if e[1] == ["vec"] and len(e[2]) == 1:
+                t, ty = self.tr(e[2][0], env, em, expect[1] if isinstance(expect, tuple) and expect[0] == "list" else None)
+                return "[%s]" % t, ("list", ty)
             self.fail(e[3], "unsupported macro %s!" % "::".join(e[1]))
         self.fail("?", "unsupported expression form %s" % k)
 
@@ -597,7 +683,8 @@ class Gen:
                 tb, tyb = self.tr(b, env, em, tya)
             if not same(tya, tyb):
                 self.fail(line, "comparison of %s with %s" % (tya, tyb))
-            eq = {"kind": "sk_eqb", "usize": "Nat.eqb", "size": "N.eqb", "bool": "Bool.eqb", "char": "N.eqb"}.get(tya)
+            eq = {"kind": "sk_eqb", "usize": "Nat.eqb", "size": "N.eqb", "bool": "Bool.eqb", "char": "N.eqb",
+                  "rkind": "opt_rk_eqb", "fileid": "N.eqb"}.get(tya)
             if eq is None:
                 self.fail(line, "== on type %s" % (tya,))
             t = "%s %s %s" % (eq, atom(ta), atom(tb))
@@ -628,6 +715,56 @@ class Gen:
         t, ty = self.tr(body, e2, None, want)
         return "(fun %s => %s)" % (" ".join(names), t), ty
 
+    def tr_field(self, e, env, em):
+        t, ty = self.tr(e[1], env, em)
+        f, line = e[2], e[3]
+        a = atom(t)
+        if ty in ENTRY_TYPES:
+            if f == "name":
+                return "en_name %s" % a, "str"
+            if f == "typ" and ty in ("targ", "field", "variable", "defset"):
+                return "en_typ %s" % a, "tytype"
+            if f == "define_loc":
+                return "en_define_loc %s" % a, "filerange"
+            if f == "kind" and ty == "record":
+                return "en_rkind %s" % a, "rkind"
+            if f == "def_list" and ty == "defset":
+                return "en_def_list %s" % a, ("list", "recordid")
+        if ty == "filerange":
+            if f == "range":
+                return "fr_range %s" % a, "range"
+            if f == "file":
+                return "fr_file %s" % a, "fileid"
+        if ty == "hint" and f == "position":
+            return "h_pos %s" % a, "size"
+        self.fail(line, "unsupported field .%s of %s" % (f, ty))
+
+    def mclosure(self, cl, argtys, env, want=None):
+        """a closure whose body has effects -> (fun .. => hm term yielding its value, result type)"""
+        pats, body, line = cl[1], cl[2], cl[3]
+        if len(pats) != len(argtys):
+            self.fail(line, "closure arity")
+        e2 = env
+        names = []
+        for p, ty in zip(pats, argtys):
+            while p[0] in ("pref", "pmut"):
+                p = p[1]
+            if p[0] == "pbind":
+                e2 = self.env_bind(e2, p[1], ty)
+                names.append(self.v(p[1]))
+            elif p[0] == "pwild":
+                names.append("_")
+            else:
+                self.fail(line, "closure parameter pattern")
+        old = self.cur_ctx
+        self.cur_ctx = Ctx(old.fn if old else self.cur_fn, None)      # no `break` out of a closure
+        try:
+            em = Emit()
+            t, ty = self.tr(body, e2, em, want)
+        finally:
+            self.cur_ctx = old
+        return "(fun %s =>\n%sVal %s)" % (" ".join(names), em.prefix(), atom(t)), ty
+
     def tr_call(self, e, env, em, expect):
         f, args, line = e[1], e[2], e[3]
         if f[0] != "path":
@@ -648,6 +785,18 @@ class Gen:
             if tya != "size" or tyb != "size":
                 self.fail(line, "TextRange::new of non-TextSize")
             return "rg_new %s %s" % (atom(ta), atom(tb)), "range"
+        if len(p) == 3 and p[0] == "ast" and p[2] == "cast" and p[1] in ("ClassRef", "ClassValue") and len(args) == 1:
+            t, ty = self.tr(args[0], env, em, "node")
+            if ty != "node":
+                self.fail(line, "ast cast of a %s" % (ty,))
+            return "ast_cast S_%s %s" % (p[1], atom(t)), ("opt", ("ast", p[1]))
+        if p == ["InlayHint", "new"] and len(args) == 3:
+            a0, t0 = self.tr(args[0], env, em, "size")
+            a1, t1 = self.tr(args[1], env, em, "str")
+            a2, t2 = self.tr(args[2], env, em, "hkind")
+            if (t0, t1, t2) != ("size", "str", "hkind"):
+                self.fail(line, "InlayHint::new(%s, %s, %s)" % (t0, t1, t2))
+            return "mk_inlay_hint %s %s %s" % (atom(a0), atom(a1), atom(a2)), "hint"
         if p == ["Vec", "new"] and not args:
             return "[]", ("list", None)
         name = p[-1]
@@ -662,6 +811,9 @@ class Gen:
                     self.fail(line, "argument %s of %s: %s, expected %s" % (pn, name, ty, pty))
                 ts.append(atom(t))
             call = "%s %s" % (sig["coq"], " ".join(ts))
+            if sig.get("rec"):
+                fuel = "fuel" if name == self.cur_fn else REC_FUEL[name]
+                call = "%s %s %s" % (sig["coq"], fuel, " ".join(ts))
             if sig["effect"]:
                 if em is None:
                     self.fail(line, "call of the effectful fn %s in a pure context" % name)
@@ -761,8 +913,75 @@ class Gen:
                 if not (isinstance(rty, tuple) and rty[0] == "opt"):
                     self.fail(line, "and_then: closure does not return an Option")
                 return "opt_and_then %s %s" % (a, f), rty
+        if isinstance(ty, tuple) and ty[0] == "ast":
+            if ty[1] in ("ClassRef", "ClassValue") and (m, n) == ("arg_value_list", 0):
+                return "ast_arg_value_list %s" % a, ("opt", ("ast", "ArgValueList"))
+            if ty[1] == "ArgValueList" and (m, n) == ("arg_values", 0):
+                return "ast_arg_values %s" % a, ("list", ("ast", "ArgValue"))
+            if (m, n) == ("syntax", 0):
+                return t, "node"
+        if ty == "range" and (m, n) == ("contains_inclusive", 1):
+            x, _ = arg(0, "size")
+            return "rg_contains_inclusive %s %s" % (a, x), "bool"
+        if ty == "idb" and (m, n) == ("index", 0):
+            return "db_index %s" % a, "index"
+        if ty == "idb" and (m, n) == ("parse", 1):
+            f, _ = arg(0, "fileid")
+            return "idb_parse %s %s" % (a, f), "tree"
+        if ty == "index" and (m, n) == ("symbol_map", 0):
+            return "index_symbol_map %s" % a, "symmap"
+        if ty == "symmap":
+            if (m, n) == ("iter_symbols_in_file", 1):
+                f, _ = arg(0, "fileid")
+                return "sm_iter_symbols_in_file %s %s" % (a, f), ("opt", ("list", "symid"))
+            acc = {"symbol": ("sm_symbol", "symid", "symview"), "template_arg": ("sm_template_arg", "targid", "targ"),
+                   "record_field": ("sm_record_field", "fieldid", "field"), "record": ("sm_record", "recordid", "record"),
+                   "iter_symbols_in_range": ("sm_iter_symbols_in_range", "filerange",
+                                             ("opt", ("list", ("tuple", ["filerange", "symid"]))))}
+            if m in acc and n == 1:
+                if em is None:
+                    self.fail(line, "panicking accessor .%s() in a pure context" % m)
+                fn_, aty, rty = acc[m]
+                x, _ = arg(0, aty)
+                return em.bind(self, "hsres (%s %s %s)" % (fn_, a, x)), rty
+        if ty in ("record", "multiclass") and (m, n) == ("iter_template_arg", 0):
+            return "en_iter_template_arg %s" % a, ("list", "targid")
+        if ty == "record" and (m, n) == ("iter_field", 0):
+            return "en_iter_field %s" % a, ("list", "fieldid")
+        if ty == "tytype" and (m, n) == ("to_string", 0):
+            return t, "str"
+        if ty == "str" and (m, n) == ("into", 0):
+            return t, "str"
+        if ty == "recordid" and (m, n) == ("into", 0):
+            return "sid_of_record %s" % a, "symid"
         if isinstance(ty, tuple) and ty[0] == "list":
             el = ty[1]
+            if m in ("map", "filter", "filter_map") and n == 1 and args[0][0] == "closure" and self.has_effect(args[0][2]):
+                if em is None:
+                    self.fail(line, "effectful closure in a pure context")
+                f, rty = self.mclosure(args[0], [el], env, "bool" if m == "filter" else None)
+                if m == "map":
+                    return em.bind(self, "hmapM %s %s" % (f, a)), ("list", rty)
+                if m == "filter":
+                    if rty != "bool":
+                        self.fail(line, "filter: closure does not return bool")
+                    return em.bind(self, "hfilterM %s %s" % (f, a)), ty
+                if not (isinstance(rty, tuple) and rty[0] == "opt"):
+                    self.fail(line, "filter_map: closure does not return an Option")
+                return em.bind(self, "hfilter_mapM %s %s" % (f, a)), ("list", rty[1])
+            if (m, n) == ("take_while", 1):
+                f, rty = self.closure(args[0], [el], env, "bool")
+                if rty != "bool":
+                    self.fail(line, "take_while: closure does not return bool")
+                return "it_take_while %s %s" % (f, a), ty
+            if (m, n) == ("zip", 1):
+                b, bty = arg(0)
+                if not (isinstance(bty, tuple) and bty[0] == "list"):
+                    self.fail(line, "zip with a non-iterator")
+                return "combine %s %s" % (a, b), ("list", ("tuple", [el, bty[1]]))
+            if (m, n) == ("chain", 1):
+                b, bty = arg(0, ty)
+                return "%s ++ %s" % (a, b), (ty if el is not None else bty)
             if (m, n) == ("filter_map", 1):
                 f, rty = self.closure(args[0], [el], env)
                 if not (isinstance(rty, tuple) and rty[0] == "opt"):
@@ -835,6 +1054,50 @@ class Gen:
             self.fail("?", "not a control expression")
         scrut, arms, line = e[1], e[2], e[3]
         t, ty = self.tr(scrut, env, em)
+        if ty == "symview":
+            cases = []
+            for ctor, ety in SV_CTORS:
+                chain = None          # built back to front
+                applicable = []
+                for pat, guard, body in arms:
+                    if pat == ("pwild",):
+                        applicable.append((None, guard, body))
+                        if guard is None:
+                            break
+                    elif pat[0] == "pctor" and pat[1] == ["Symbol", ctor] and len(pat[2]) == 1:
+                        q = pat[2][0]
+                        while q[0] in ("pmut", "pref"):
+                            q = q[1]
+                        if q[0] not in ("pbind", "pwild"):
+                            self.fail(line, "nested pattern inside Symbol::%s(..)" % ctor)
+                        applicable.append((q[1] if q[0] == "pbind" else None, guard, body))
+                        if guard is None:
+                            break
+                    elif pat[0] == "pctor" and pat[1][0] == "Symbol" and pat[1][1] in dict(SV_CTORS):
+                        continue
+                    else:
+                        self.fail(line, "pattern on a Symbol")
+                if not applicable or applicable[-1][1] is not None:
+                    self.fail(line, "non-exhaustive match on Symbol (constructor %s)" % ctor)
+                binders = {b for b, _, _ in applicable if b is not None}
+                if len(binders) > 1:
+                    self.fail(line, "the arms for Symbol::%s bind different names %s" % (ctor, sorted(binders)))
+                binder = binders.pop() if binders else None
+                e2 = self.env_bind(env, binder, ety) if binder else env
+                node = None
+                for b, guard, body in reversed(applicable):
+                    en = e2 if b is not None else env
+                    if guard is None:
+                        node = (body, en)
+                    else:
+                        if self.has_effect(guard):
+                            self.fail(line, "effect in a match guard")
+                        g, gty = self.tr(guard, en, None, "bool")
+                        if gty != "bool":
+                            self.fail(line, "guard is not a bool")
+                        node = (("__arms", ("if", g, (body, en), node)), en)
+                cases.append((ctor, self.v(binder) if binder else "_", node))
+            return ("sv", t, cases)
         if any(g is not None for _, g, _ in arms):
             self.fail(line, "match guard")
         if ty == "bool":
@@ -917,6 +1180,16 @@ class Gen:
             if b[0] == "__arms":
                 return self.render_arms(b[1], blk, expect)
             return blk(b, en)
+        if arms[0] == "sv":
+            outs, rty = [], None
+            for ctor, var, node in arms[2]:
+                tt, tty = sub(node)
+                if rty is not None and not same(rty, tty):
+                    self.fail("?", "arms of different types %s / %s" % (rty, tty))
+                if rty is None or (isinstance(rty, tuple) and rty[1] is None):
+                    rty = tty if tty is not None else rty
+                outs.append("| Sv%s %s =>\n%s" % (ctor, var, tt))
+            return "match %s with\n%s\nend" % (arms[1], "\n".join(outs)), rty
         if arms[0] == "if":
             ta, tya = sub(arms[2])
             tb, tyb = sub(arms[3])
@@ -972,6 +1245,10 @@ class Gen:
         return "Val %s" % tuple_term([self.v(n) for n in arg]), "unit"
 
     def seq(self, stmts, i, tail, env, ctx, end):
+        if end[0] == "state" and tail is not None and tail[0] in ("match", "if", "iflet"):
+            # a control statement in tail position of a statement block
+            stmts = list(stmts) + [("matchstmt" if tail[0] == "match" else "ifstmt", tail, tail[-1])]
+            tail = None
         old = getattr(self, "cur_ctx", None)
         self.cur_ctx = ctx
         try:
@@ -1008,6 +1285,8 @@ class Gen:
             if p[0] == "pbind":
                 em = Emit()
                 t, ty = self.tr(init, env, em)
+                if ty == ("list", None):
+                    ty = ("list", self.infer_elem(p[1], self.cur_body))
                 r, rty = rest(self.env_bind(env, p[1], ty))
                 return em.prefix() + "let %s := %s in\n%s" % (self.v(p[1]), t, r), rty
             self.fail(line, "unsupported let pattern")
@@ -1052,6 +1331,29 @@ class Gen:
                 env2 = self.env_bind(env, name, ("list", ty))
                 r, rty = rest(env2)
                 return em.prefix() + "let %s := %s ++ [%s] in\n%s" % (self.v(name), self.v(name), t, r), rty
+            if e[0] == "mcall" and e[2] in ("extend", "retain") and e[1][0] == "path" and len(e[1][1]) == 1 \
+                    and e[1][1][0] in env["vars"] and len(e[3]) == 1:
+                name = e[1][1][0]
+                lty = env["vars"][name]
+                if not (isinstance(lty, tuple) and lty[0] == "list"):
+                    self.fail(line, "%s on a non-Vec" % e[2])
+                em = Emit()
+                if e[2] == "extend":
+                    t, ty = self.tr(e[3][0], env, em, lty)
+                    if not same(ty, lty):
+                        self.fail(line, "extend of %s onto %s" % (ty, lty))
+                    new = "%s ++ %s" % (self.v(name), atom(t))
+                    nty = lty if lty[1] is not None else ty
+                else:
+                    f, rty = self.closure(e[3][0], [lty[1]], env, "bool")
+                    if rty != "bool":
+                        self.fail(line, "retain: closure does not return bool")
+                    new = "filter %s %s" % (f, self.v(name))
+                    nty = lty
+                r, rty2 = rest(self.env_bind(env, name, nty))
+                return em.prefix() + "let %s := %s in\n%s" % (self.v(name), new, r), rty2
+            if e[0] == "macro" and e[1][0] in IGNORED_MACROS:
+                return rest(env)              # logging: no effect on the result
             self.fail(line, "unsupported expression statement")
         if k in ("ifstmt", "matchstmt"):
             e = s[1]
@@ -1064,7 +1366,82 @@ class Gen:
             return "_ <- (%s) ;;\n%s" % (term, r), rty
         if k in ("loop", "whilelet", "while"):
             return self.tr_loop(s, stmts, i, tail, env, ctx, end)
+        if k == "for":
+            pat, it, body, line = s[1], s[2], s[3], s[4]
+            names = self.state_names(body, env)
+            if not names:
+                self.fail(line, "a for loop that assigns no enclosing variable")
+            em = Emit()
+            t, ty = self.tr(it, env, em)
+            if not (isinstance(ty, tuple) and ty[0] == "list"):
+                self.fail(line, "for over a non-iterator %s" % (ty,))
+            p = pat
+            while p[0] in ("pmut", "pref"):
+                p = p[1]
+            e2 = env
+            unpack = ""
+            if p[0] == "pbind":
+                e2 = self.env_bind(env, p[1], ty[1])
+                itv = self.v(p[1])
+            elif p[0] == "ptuple" and isinstance(ty[1], tuple) and ty[1][0] == "tuple" and len(p[1]) == len(ty[1][1]) \
+                    and all(q[0] == "pbind" for q in p[1]):
+                itv = "it"
+                for q, qt, pr in zip(p[1], ty[1][1], tuple_projs(len(p[1]), "it")):
+                    e2 = self.env_bind(e2, q[1], qt)
+                    unpack += "let %s := %s in\n" % (self.v(q[1]), pr)
+            else:
+                self.fail(line, "for pattern")
+            inner = Ctx(ctx.fn, names)
+            bterm, _ = self.seq(body[1], 0, body[2], e2, inner, ("state", names))
+            st = "st" if len(names) > 1 else self.v(names[0])
+            lam = "(fun %s %s =>\n%s%s%s)" % (itv, st, unpack, self.rebind(names, st, env) if len(names) > 1 else "", bterm)
+            r, rty = rest(env)
+            out = self.fresh()
+            return em.prefix() + "%s <- hfor %s %s %s ;;\n%s%s" % (
+                out, atom(t), lam, tuple_term([self.v(n) for n in names]), self.rebind(names, out, env), r), rty
         self.fail(s[-1] if isinstance(s[-1], int) else "?", "unsupported statement %s" % k)
+
+    def infer_elem(self, name, body):
+        """element type of `let mut name = vec![]`: from the first `name.push(..)` / `name.extend(v)` in the fn body"""
+        found = []
+
+        def walk(x, binders):
+            if isinstance(x, list):
+                for y in x:
+                    walk(y, binders)
+                return
+            if not isinstance(x, tuple) or not x:
+                return
+            if x[0] == "iflet" and x[1][0] == "psome" and x[1][1][0] == "pbind" and x[2][0] == "call" \
+                    and x[2][1][0] == "path" and x[2][1][1][-1] in self.fns:
+                ret = self.fns[x[2][1][1][-1]]["ret"]
+                b2 = dict(binders)
+                if isinstance(ret, tuple) and ret[0] == "opt":
+                    b2[x[1][1][1]] = ret[1]
+                for y in x[3:]:
+                    walk(y, b2)
+                return
+            if x[0] == "mcall" and x[1] == ("path", [name], x[1][2] if len(x[1]) > 2 else None) or \
+                    (x[0] == "mcall" and x[1][0] == "path" and x[1][1] == [name]):
+                if x[2] == "push" and len(x[3]) == 1:
+                    a = x[3][0]
+                    if a[0] == "call" and a[1][0] == "path" and a[1][1] == ["InlayHint", "new"]:
+                        found.append("hint")
+                    elif a[0] == "struct" and a[1] == ["DocumentSymbol"]:
+                        found.append("docsym")
+                    elif a[0] == "path" and len(a[1]) == 1 and a[1][0] in binders:
+                        found.append(binders[a[1][0]])
+                if x[2] == "extend" and len(x[3]) == 1:
+                    a = x[3][0]
+                    if a[0] == "path" and len(a[1]) == 1 and a[1][0] in binders:
+                        bt = binders[a[1][0]]
+                        if isinstance(bt, tuple) and bt[0] == "list":
+                            found.append(bt[1])
+            for y in x[1:]:
+                walk(y, binders)
+
+        walk(body, {})
+        return found[0] if found else None
 
     def diverges(self, blk):
         if blk[0] != "block" or blk[2] is not None or not blk[1]:
@@ -1122,9 +1499,15 @@ class Gen:
             params.append((pn, ty))
         ret = rust_type(fn["ret"], fn["file"], fn["line"])
         self.ret_ty = ret
-        effect = self.has_effect(fn["body"])
-        self.fns[name] = {"coq": coqname, "params": params, "ret": ret, "effect": effect}
+        self.cur_fn = name
+        rec = self.calls_itself(fn["body"], name)
+        if rec and name not in REC_FUEL:
+            self.fail(fn["line"], "fn %s is recursive and has no depth annotation (REC_FUEL)" % name)
+        effect = self.has_effect(fn["body"]) or rec
+        self.fns[name] = {"coq": coqname, "params": params, "ret": ret, "effect": effect, "rec": rec}
         self.ctx = Ctx(name)
+        self.cur_ctx = self.ctx
+        self.cur_body = fn["body"]
         sig = " ".join("(%s : %s)" % (self.v(pn), coq_type(ty)) for pn, ty in params)
         if effect:
             term, ty = self.seq(fn["body"][1], 0, fn["body"][2], env, self.ctx, ("value", ret))
@@ -1132,12 +1515,29 @@ class Gen:
                 self.fail(fn["line"], "fn %s returns %s, declared %s" % (name, ty, ret))
             body = "hrun (\n%s)" % term
             rty = "outcome (%s)" % coq_type(ret)
+            if rec:
+                return ("(* %s: fn %s (recursive: rendered with a depth bound) *)\nFixpoint %s (fuel : nat) %s : %s :=\n"
+                        "  match fuel with\n  | O => OutOfFuel\n  | S fuel =>\n%s\n  end.\n") % (
+                            fn["file"], name, coqname, sig, rty, indent(body))
         else:
             body, ty = self.pure_control(fn["body"], env, ret)
             if not same(ty, ret):
                 self.fail(fn["line"], "fn %s returns %s, declared %s" % (name, ty, ret))
             rty = coq_type(ret)
         return "(* %s: fn %s *)\nDefinition %s %s : %s :=\n%s.\n" % (fn["file"], name, coqname, sig, rty, indent(body))
+
+
+def _calls(x, name):
+    if isinstance(x, tuple):
+        if x and x[0] == "call" and x[1][0] == "path" and x[1][1] == [name]:
+            return True
+        return any(_calls(y, name) for y in x)
+    if isinstance(x, list):
+        return any(_calls(y, name) for y in x)
+    return False
+
+
+Gen.calls_itself = lambda self, body, name: _calls(body, name)
 
 
 def indent(text):
@@ -1166,10 +1566,17 @@ TARGETS = [
     (FOLDING, "exec", "src_folding_exec"),
     (HOVER, "prev_token", "src_prev_token"),
     (HOVER, "extract_doc_comments", "src_extract_doc_comments"),
+    (DOCSYM, "symbol_to_document_symbol", "src_symbol_to_document_symbol"),
+    (DOCSYM, "exec", "src_document_symbol_exec"),
+    (INLAY, "inlay_hint_class", "src_inlay_hint_class"),
+    (INLAY, "inlay_hint_record_field", "src_inlay_hint_record_field"),
+    (INLAY, "exec", "src_inlay_hint_exec"),
 ]
 # the files must not grow other top-level fns that these could start to depend on unnoticed
 EXPECTED_FNS = {UTILS: ["range_excluding_trivia"], FOLDING: ["exec"],
-                HOVER: ["exec", "extract_symbol_signature", "extract_doc_comments", "prev_token"]}
+                HOVER: ["exec", "extract_symbol_signature", "extract_doc_comments", "prev_token"],
+                DOCSYM: ["exec", "symbol_to_document_symbol"],
+                INLAY: ["exec", "inlay_hint_class", "inlay_hint_record_field"]}
 
 
 def translate(repo):
@@ -1177,12 +1584,17 @@ def translate(repo):
         got = top_fn_names(repo, rel)
         if sorted(got) != sorted(want):
             raise TranslateError("%s: top-level fns %s, expected %s" % (rel, got, want))
+    src = cut_tests(strip_comments(read(repo, INLAY)))
+    m = re.search(r"impl\s+InlayHint\s*\{(.*?)\n\}", src, re.S)
+    want = "fn new(position: TextSize, label: impl Into<String>, kind: InlayHintKind) -> Self { Self { position, label: label.into(), kind, } }"
+    if not m or " ".join(m.group(1).split()) != want:
+        raise TranslateError("%s: `impl InlayHint { fn new .. }` is not the plain constructor the table entry InlayHint::new stands for" % INLAY)
     g = Gen(repo)
     out = ["(* GENERATED by tools/translate/t_handlers.py from %s -- do not edit *)" % ", ".join(
                "%s (%s)" % (f, n) for f, n, _ in TARGETS),
            "From Coq Require Import List NArith Bool.",
            "From TG.Gen Require Import GenTokens.",
-           "From TG.Model Require Import Chars Tree TreeNav DocComments HandlerApi.",
+           "From TG.Model Require Import Chars Tree TreeNav DocComments SymbolMap Outline HandlerApi HandlerSymApi.",
            "Import ListNotations.",
            "Open Scope N_scope.",
            ""]
